@@ -13,6 +13,7 @@ import (
 	"encoding/binary"
 	"encoding/json"
 	"fmt"
+	"io"
 	"time"
 
 	"github.com/blevesearch/mmap-go"
@@ -145,8 +146,10 @@ func ScanFooter(options *StoreOptions, fref *FileRef, fileName string,
 				return nil, ErrNoValidFooter
 			}
 
+			// A short read (io.EOF) means the file ends inside this
+			// page, e.g. after a torn write: not a footer, keep scanning.
 			n, err := fref.file.ReadAt(footerBeg, pos)
-			if err != nil {
+			if err != nil && err != io.EOF {
 				return nil, err
 			}
 
@@ -167,20 +170,28 @@ func ScanFooter(options *StoreOptions, fref *FileRef, fileName string,
 		if err := binary.Read(footerBegBuf, StoreEndian, &version); err != nil {
 			return nil, err
 		}
-		if version != StoreVersion {
-			return nil, fmt.Errorf("store: version mismatch, "+
-				"current: %v != found: %v", StoreVersion, version)
-		}
-
 		var length uint32
 		if err := binary.Read(footerBegBuf, StoreEndian, &length); err != nil {
 			return nil, err
 		}
 
+		finfo, err := fref.file.Stat()
+		if err != nil {
+			return nil, err
+		}
+		if version != StoreVersion ||
+			int64(length) < int64(footerBegLen+footerEndLen) ||
+			pos+int64(length) > finfo.Size() {
+			// Not a complete footer (a torn write, or data that merely
+			// resembles the magic), so keep scanning.
+			pos -= int64(StorePageSize)
+			continue
+		}
+
 		data := make([]byte, int64(length)-int64(footerBegLen))
 
 		n, err := fref.file.ReadAt(data, pos+int64(footerBegLen))
-		if err != nil {
+		if err != nil && err != io.EOF {
 			return nil, err
 		}
 
